@@ -21,7 +21,7 @@ RULE = ("seeded products: sample type x geometry class (1x1,1xN,Nx1,NxM; lines u
         "non-divisor, N-1, N, N+1, 2N+3, 2^40); plus the exhaustive block lines 1..Lmax x rpc 1..Lmax+1 x both types. "
         "Every random case opens three products: P, a twin with equal names/geometry elsewhere, and a replacement of P in place "
         "(same filesystem, root and names, other samples); 40% of the cases carry fully random line prefixes whose fill / "
-        "data-pixel counts lie around the line width. A case is non-trivial when at least one image was loaded and compared; distinct = distinct "
+        "data-pixel counts lie around the line width. Special geometries: wide (1500-2600 pixels) and tall (400-700 lines) images, images whose full group of rpc lines spans exactly 2**k bytes (k = 12..20 quick, ..23 thorough), one image larger than 64 MiB; a third of the twins live under the same root string on another filesystem; directory names carry URL/shell-special characters in 30% of the cases. A case is non-trivial when at least one image was loaded and compared; distinct = distinct "
         "(type, geometry, pattern, filesystem, rpc class) signatures")
 ASSUMPTIONS = ["only well-formed image files are generated (record length = prefix + pixels x sample size)",
                "expected samples are taken from the bytes the independent encoder wrote"]
